@@ -124,6 +124,11 @@ class Pipeline(Machine):
             for a in arts[-3:]:
                 ops.append({"kind": "roundtrip", "i": len(ops), "src": a, "fmt": s.choice(["yaml", "json"]),
                             "hier": s.chance(0.4), "stale": False, "entry": "cli"})
+            if len(arts) >= 2 and s.chance(0.15):
+                # a long-lived interpreter (a build server): the descriptions of two envelopes re-created in turn, many times
+                pa, pb = s.sample(arts, 2)
+                ops.append({"kind": "alternate", "i": len(ops), "a": pa, "b": pb, "fmt": s.choice(["yaml", "json"]),
+                            "n": s.choice([20, 40]) if tier == "quick" else s.choice([40, 120])})
         return {"seed": seed, "swarm": swarm, "ops": ops, "faults": []}
 
     def place_faults(self, plan, counts, prop):
@@ -137,6 +142,21 @@ class Pipeline(Machine):
             f = self.aim_fault(s, op["i"], counts, s.choice(kinds))
             if f:
                 out.append(f)
+        if "stat_fail" in kinds:
+            # the existence test of a referenced file whose *name* could be inline hex: if that test fails the tool must
+            # not quietly take the name for the content
+            import errno as _errno
+
+            for op in cands:
+                c = counts.get(op["i"]) or counts.get(str(op["i"])) or {}
+                j = 0
+                for e in c.get("ev", []):
+                    if e[0] == "stat":
+                        base = (e[1] or "").rsplit("/", 1)[-1]
+                        if base and all(ch in "0123456789abcdefABCDEF" for ch in base) and s.chance(0.5) \
+                                and not any(f["op"] == op["i"] for f in out):
+                            out.append({"op": op["i"], "kind": "stat_fail", "at": j, "errno": s.choice([_errno.EACCES, _errno.EIO])})
+                        j += 1
         return out
 
     # -- model ------------------------------------------------------------------------------------------------------------
@@ -663,6 +683,41 @@ class Pipeline(Machine):
             return self._compare(op, src, back, "root")
         except (cborr.CborError, IndexError, AttributeError) as e:
             return [violation("C03", "output-unreadable", op["i"], repr(e))]
+
+    def _alternate(self, host, model, op, faults, prop):
+        ex = model["_extra"]
+        arts = [model["arts"].get(op["a"]), model["arts"].get(op["b"])]
+        if prop != "C03" or not all(arts):
+            model["_abstract"] = "skipped"
+            return []
+        texts = []
+        for tag, art in zip("ab", arts):
+            txt_rel = f"alt_{op['i']}_{tag}.{op['fmt']}"
+            o = world.parse(host, art["rel"], txt_rel, fmt=op["fmt"], hier=True, entry="cli")
+            if not o.ok:
+                model["_abstract"] = ("alternate", "parse-failed")
+                return []  # judged by the round-trip operation
+            texts.append((txt_rel, host.read(art["rel"])))
+        model["_abstract"] = ("alternate", op["n"] >= 40)
+        for k in range(op["n"]):
+            txt_rel, src = texts[k % 2]
+            back_rel = f"alt_{op['i']}.suit"
+            o2 = world.create(host, None, back_rel, fmt=op["fmt"], entry="cli", desc_rel=txt_rel, input_format=op["fmt"])
+            if not o2.ok:
+                return [violation("C03", "create-accepts-parse-output", op["i"],
+                                  f"create no. {k + 1} of an alternation rejected the description parse wrote: {o2.cls} "
+                                  f"{o2.exc_type}: {o2.exc_msg}", cls="unexpected-failure", site=o2.site)]
+            ex["alternating_creates"] = ex.get("alternating_creates", 0) + 1
+            try:
+                vs = self._compare(op, src, host.read(back_rel), "root")
+            except (cborr.CborError, IndexError, AttributeError) as e:
+                return [violation("C03", "output-unreadable", op["i"], repr(e))]
+            if vs:
+                for v in vs:
+                    v["detail"] = f"create no. {k + 1} of two descriptions re-created in turn in one interpreter: " + v["detail"]
+                return vs
+        model["_nontrivial"] = True
+        return []
 
     def _compare(self, op, src, back, where):
         vs = []
